@@ -352,4 +352,69 @@ theorem handleMessageRrl_tcp (W : WriterSafe) (cfg : Cfg) (hcfg : CfgWF cfg) (no
     | err e => rw [hf] at h; cases h
     | panic => rw [hf] at h; cases h
 
+/-- `process_response` never touches the parameters of the table -/
+theorem processResponse_params (rs : Rrl.RandomState) (R : Rrl.Rrl) (now : Nat) (rnd : Bool) (c : Rrl.Context)
+    (R' : Rrl.Rrl) (c' : Rrl.Context) (h : Rrl.processResponse rs R now rnd c = .ok (R', c')) :
+    R'.params = R.params := by
+  unfold Rrl.processResponse at h
+  split at h
+  · simp only [Out.ok.injEq, Prod.mk.injEq] at h; rw [← h.1]
+  · split at h
+    · cases h
+    · exact nomatch (by assumption : Empty)
+    · split at h
+      · cases h
+      · dsimp only at h
+        split at h
+        · cases h
+        · exact nomatch (by assumption : Empty)
+        · simp only [Out.ok.injEq, Prod.mk.injEq] at h; rw [← h.1]; rfl
+
+theorem handleMessageRrl_params (cfg : Cfg) (tr : Transport) (now bufLen : Nat) (req : Bytes)
+    (rs : Rrl.RandomState) (rrl : Rrl.Rrl) (src : Rrl.IpAddr) (tnow : Nat) (rnd : Bool)
+    (resp : Option Bytes) (rrl' : Rrl.Rrl)
+    (h : handleMessageRrl cfg tr now bufLen req rs rrl src tnow rnd = .ok (resp, rrl')) :
+    rrl'.params = rrl.params := by
+  unfold handleMessageRrl at h
+  cases hc : handleToContext cfg tr now bufLen req with
+  | panic => rw [hc] at h; cases h
+  | err e => rw [hc] at h; cases h
+  | ok hd =>
+    rw [hc] at h
+    cases hd with
+    | noContext => simp only [Out.ok.injEq, Prod.mk.injEq] at h; rw [← h.2]
+    | ctx send w1 r0 =>
+      dsimp only at h
+      cases hp : Rrl.processResponse rs rrl tnow rnd (rrlContext cfg tr src send w1 r0) with
+      | panic => rw [hp] at h; cases h
+      | err e => exact nomatch e
+      | ok v =>
+        obtain ⟨R', c'⟩ := v
+        rw [hp] at h
+        dsimp only at h
+        have hpar := processResponse_params rs rrl tnow rnd _ R' c' hp
+        split at h
+        · split at h
+          · simp only [Out.ok.injEq, Prod.mk.injEq] at h; rw [← h.2]; exact hpar
+          · cases h
+        · cases h
+
+/-- **a whole sequence of messages** against one rate-limited server: no panic, one result per
+    message -/
+theorem serveAll_no_panic (W : WriterSafe) (cfg : Cfg) (hcfg : CfgWF cfg) (rs : Rrl.RandomState)
+    (arrivals : List Arrival) (henv : ∀ a ∈ arrivals, EnvOK cfg a.tr a.now a.bufLen a.req) :
+    ∀ (rrl : Rrl.Rrl), rrl.params.Valid →
+      ∃ resps rrl', serveAll cfg rs rrl arrivals = .ok (resps, rrl') ∧ resps.length = arrivals.length ∧
+        rrl'.params = rrl.params := by
+  induction arrivals with
+  | nil => intro rrl _; exact ⟨[], rrl, rfl, rfl, rfl⟩
+  | cons a rest ih =>
+    intro rrl hv
+    obtain ⟨resp, rrl1, h1⟩ := handleMessageRrl_no_panic W cfg hcfg a.tr a.now a.bufLen a.req
+      (henv a (List.mem_cons_self ..)) rs rrl hv a.src a.tnow a.rnd
+    have hp1 := handleMessageRrl_params cfg a.tr a.now a.bufLen a.req rs rrl a.src a.tnow a.rnd resp rrl1 h1
+    obtain ⟨resps, rrl2, h2, hl, hp2⟩ := ih (fun b hb => henv b (List.mem_cons_of_mem _ hb)) rrl1 (hp1 ▸ hv)
+    refine ⟨resp :: resps, rrl2, ?_, by simp [hl], hp2.trans hp1⟩
+    simp only [serveAll, h1, h2]
+
 end QV.ServerSafety
